@@ -630,6 +630,55 @@ Proof.
   destruct H as [[o H]|H]; [eapply OUT; eauto|apply INC; exact H].
 Qed.
 
+(* ---------- the run-time check of the invariant is sound; initial states ---------- *)
+Lemma lookup_num_in : forall k t nm, lookup_num k t = Some nm -> In (k, nm) t.
+Proof.
+  induction t as [|[j n] t IH]; simpl; intros nm H; [discriminate|].
+  destruct (k =? j) eqn:E.
+  - apply Z.eqb_eq in E. injection H as ->. subst. auto.
+  - right. apply IH. exact H.
+Qed.
+
+Theorem inv_check_sound : forall st, inv_check st = true -> tables_inverse st.
+Proof.
+  intros st H. unfold inv_check in H. apply andb_true_iff in H. destruct H as [H1 H2].
+  rewrite forallb_forall in H1, H2. intros nm k. split; intro L.
+  - apply lookup_name_in in L. apply H1 in L. simpl in L.
+    destruct (lookup_num k (revsymtable st)) as [n|]; [|discriminate]. apply name_eqb_eq in L. congruence.
+  - apply lookup_num_in in L. apply H2 in L. simpl in L.
+    destruct (lookup_name nm (symtable st)) as [j|]; [|discriminate]. apply Z.eqb_eq in L. congruence.
+Qed.
+
+(* a fresh interpreter family: empty tables, any counters *)
+Lemma empty_wf : forall cs, wf_tables (mkState [] [] cs).
+Proof. intros cs. split; [constructor|]. intros nm k. simpl. split; discriminate. Qed.
+
 (* ---------- non-vacuity ---------- *)
 Lemma ex_itoa : itoa 0 = [48] /\ itoa 12 = [49; 50] /\ itoa 1090 = [49; 48; 57; 48] /\ itoa (-5) = [45; 53].
+Proof. vm_compute. repeat split; reflexivity. Qed.
+
+Definition nm_a : name := [97].
+Definition nm_g : name := [103].
+(* a duplicate made before the root interned anything has the same counter as the root:
+   both generate with prefix g; the names and the numbers differ *)
+Lemma ex_family_gensym :
+  snd (run (mkState [] [] [5]) [Dup 0; GenSym 0 nm_g; GenSym 1 nm_g; MkSym 1 nm_a; MkSym 0 nm_a]) =
+  [ONone; OSym [103; 53] 5; OSym [103; 54] 6; OSym nm_a 7; OSym nm_a 7].
+Proof. vm_compute. reflexivity. Qed.
+(* a script interned g6 and g7 before the counter reached 6: GenSymbol skips both names *)
+Lemma ex_preinterned_shape :
+  snd (run (mkState [] [] [5]) [MkSym 0 [103; 54]; MkSym 0 [103; 55]; GenSym 0 nm_g; GenSym 0 nm_g]) =
+  [OSym [103; 54] 5; OSym [103; 55] 6; OSym [103; 56] 7; OSym [103; 57] 8].
+Proof. vm_compute. reflexivity. Qed.
+(* a member whose counter lags behind skips the numbers the others have used *)
+Lemma ex_lagging_counter :
+  run (mkState [] [] [5]) [Clone 0; MkSym 0 nm_a; MkSym 0 nm_g; MkSym 1 [98]] =
+  (mkState [([98], 7); (nm_g, 6); (nm_a, 5)] [(7, [98]); (6, nm_g); (5, nm_a)] [7; 8],
+   [ONone; OSym nm_a 5; OSym nm_g 6; OSym [98] 7]).
+Proof. vm_compute. reflexivity. Qed.
+Lemma ex_spec_rejects_reuse :
+  spec_accepts [] [(GenSym 0 nm_g, OSym [103; 53] 5); (GenSym 1 nm_g, OSym [103; 53] 5)] = false /\
+  spec_accepts [] [(MkSym 0 nm_a, OSym nm_a 5); (MkSym 1 nm_g, OSym nm_g 5)] = false /\
+  spec_accepts [] [(MkSym 0 nm_a, OSym nm_a 5); (MkSym 1 nm_a, OSym nm_a 6)] = false /\
+  spec_accepts [] [(MkSym 0 nm_a, OSym nm_a 5); (Dup 0, ONone); (GenSym 1 nm_g, OSym [103; 54] 6)] = true.
 Proof. vm_compute. repeat split; reflexivity. Qed.
